@@ -62,3 +62,59 @@ pub fn dispatch(cpu: &mut RefCpu, bus: &mut RefBus) -> (Outcome, Option<u8>) {
     cpu.pc = 0x40 + 8 * idx;
     (Outcome::Dispatched { vector: cpu.pc, cleared: bit }, alt)
 }
+
+/// All admissible results of a dispatch. More than one only when the high-byte push itself lands on a register whose
+/// write may, but need not, raise a request (STAT/LYC with the condition holding, DIV with the selected bit high): the
+/// re-sampled pending set then has two admissible values.
+pub fn dispatch_set(cpu: &RefCpu, bus: &RefBus) -> Vec<(RefCpu, RefBus, Outcome, Option<u8>)> {
+    let pending = bus.iflag & bus.ie & 0x1f;
+    if pending == 0 || cpu.ime != IME_ON {
+        let mut c = cpu.clone();
+        let mut b = bus.clone();
+        let (o, a) = dispatch(&mut c, &mut b);
+        return vec![(c, b, o, a)];
+    }
+    // replay the first half by hand to see whether the high-byte push opens a choice
+    let mut probe_bus = bus.clone();
+    let unknown_before = probe_bus.if_unknown;
+    probe_bus.write(cpu.sp.wrapping_sub(1), (cpu.pc >> 8) as u8);
+    let opened = probe_bus.if_unknown & !unknown_before & probe_bus.ie & 0x1f;
+    let mut out = Vec::new();
+    for choice in [false, true] {
+        if choice && opened == 0 {
+            break;
+        }
+        let mut c = cpu.clone();
+        let mut b = bus.clone();
+        // same steps as `dispatch`, with the opened request bits decided
+        c.run_state = RUN;
+        c.ime = IME_OFF;
+        let pc = c.pc;
+        c.sp = c.sp.wrapping_sub(1);
+        b.write(c.sp, (pc >> 8) as u8);
+        if opened != 0 {
+            b.if_unknown &= !opened;
+            if choice {
+                b.iflag |= opened;
+            }
+        }
+        let pending2 = b.iflag & b.ie & 0x1f;
+        c.sp = c.sp.wrapping_sub(1);
+        let low_on_if = c.sp == 0xff0f;
+        b.write(c.sp, pc as u8);
+        c.cycles += 5;
+        if pending2 == 0 {
+            c.pc = 0;
+            out.push((c, b, Outcome::Cancelled, None));
+            continue;
+        }
+        let idx = pending2.trailing_zeros() as u16;
+        let bit = 1u8 << idx;
+        let alt = if low_on_if { Some(b.iflag) } else { None };
+        b.iflag &= !bit;
+        c.pc = 0x40 + 8 * idx;
+        let o = Outcome::Dispatched { vector: c.pc, cleared: bit };
+        out.push((c, b, o, alt));
+    }
+    out
+}
